@@ -10,7 +10,7 @@ from .c05 import gen_ordered_world, gen_stat_overlay
 
 PROP = "C08"
 GKEYS = ["ext", "dir", "is_dir", "mode", "uid", "length(name)"]
-AGGS = ["count(*)", "sum(size)", "min(size)", "max(size)", "avg(size)"]
+AGGS = ["count(*)", "sum(size)", "min(size)", "max(size)", "avg(size)", "min(length(name))", "max(length(name))", "sum(length(name))", "max(hardlinks)"]
 SAFE_VAL = re.compile(rb"^[A-Za-z0-9_./-]+$")
 
 
@@ -86,7 +86,7 @@ class Check:
                     have.add(t + "/" + nm_)
                     world["nodes"].append({"path": t + "/" + nm_, "type": "file", "content": "x" * rng.choice([1, 10, 100])})
         keys = rng.sample(GKEYS, rng.choice([1, 1, 2, 2]))
-        aggs = ["count(*)"] + rng.sample(AGGS[1:], rng.choice([1, 2, 4]))
+        aggs = ["count(*)"] + rng.sample(AGGS[1:], rng.choice([1, 2, 4, 6]))
         aggs = [a for a in AGGS if a in aggs]
         where = rng.choice([None, None, "size > 9", "is_file = true"])
         order = None
